@@ -825,3 +825,101 @@ reg(dict(
         "payloads are harness fill bytes (0x62 / 0x63) so that a foreign packet inside a payload is recognisable",
         "field-level well-formedness of each packet is the business of C01 (WireJudge); StreamMon checks framing, flags and payload extents",
     ]), ["C08"])
+
+
+# =============================================================================================
+# group "topic": C18  (Topic.tla reference semantics; tables by TLC, differential in the harness,
+#                      sampled real answers judged by TLC)
+
+TOPIC_CFG = "SPECIFICATION Spec\nCONSTANT L = {L}\nCHECK_DEADLOCK FALSE\n"
+
+
+def run_topic(prop, tier, seed):
+    import os, sys, time, json, random
+    import vlib
+    t0 = time.time()
+    L = 4 if tier == "quick" else 5
+    r = vlib.tlc("MC_Topic", TOPIC_CFG.format(L=L), f"topic_L{L}", workers=1, timeout=3000)
+    strings, vf, vn, match = [], [], [], {}
+    for a in vlib.prints(r["out"], "S"):
+        strings.append(a[0])
+        if a[1]:
+            vf.append(a[0])
+        if a[2]:
+            vn.append(a[0])
+    for a in vlib.prints(r["out"], "F"):
+        match[a[0]] = json.loads(a[1])
+    rnd = random.Random(seed)
+    alpha = ["a", "b", "$", "é", "漢", "x1", "", "+", "#", "$SYS", "sport", " "]
+    extra = []
+    for _ in range(3000 if tier == "quick" else 30000):
+        f = "/".join(rnd.choice(alpha) for _ in range(rnd.randint(1, 6)))
+        if rnd.random() < 0.5:
+            tn = "/".join((lv if lv not in ("+", "#") else rnd.choice(["a", "$x", ""])) for lv in f.split("/"))
+        else:
+            tn = "/".join(rnd.choice(alpha[:7] + ["$SYS", "sport"]) for _ in range(rnd.randint(1, 6)))
+        extra.append([f, tn])
+    d = os.path.join(vlib.WORK, "runs")
+    os.makedirs(d, exist_ok=True)
+    tp = os.path.join(d, f"topic_{tier}.table.json")
+    op = os.path.join(d, f"topic_{tier}.out.json")
+    json.dump(dict(strings=strings, valid_filter=vf, valid_name=vn, match=match, extra_pairs=extra), open(tp, "w"))
+    rr = vlib.sh([vlib.MQV, "topic", tp, op, "40" if tier == "quick" else "400"])
+    if rr.returncode != 0:
+        sys.stderr.write(rr.stdout[-3000:])
+        raise vlib.ToolError("harness topic failed")
+    res = json.load(open(op))
+    verdict = vlib.judge("TopicJudge", op + ".sample.ndjson", f"topic_{tier}", parallel=1)
+    viols = [dict(why=v["why"], f=v["f"], t=v["t"]) for v in res["violations"]]
+    viols += [dict(why=v["why"], f="(judge sample line)", t="") for v in verdict["viol"]]
+    known = vlib.load_known()
+    new = []
+    seen_known = {}
+    for v in viols:
+        sig = f"{v['why']}|{v['f']}|{v['t']}"
+        k = vlib.match_known(known, prop, sig)
+        if k:
+            seen_known[k["signature"]] = k
+        else:
+            new.append(dict(v, signature=sig))
+    for k in seen_known.values():
+        print(f"KNOWN-FINDING: property={prop} {k['what']}")
+    cov = dict(states=len(strings), transitions=res["pairs"] + res["cover_pairs"],
+               traces_validated_against_impl=verdict["runs"],
+               samples=[dict(filter=f, matches=match[f][:6]) for f in list(match)[:: max(1, len(match) // 5)]][:5],
+               strings=res["strings"], filter_topic_pairs=res["pairs"], cover_pairs=res["cover_pairs"],
+               cover_true=res["cover_true"], judged_by_tlc=verdict["runs"], L=L, exhaustive=True,
+               rule=f"TLC enumerates every string over {{a,b,$,/,+,#}} up to length {L}, classifies it with Topic.tla and emits per valid "
+                    "filter the set of matching names; the harness evaluates from_str / try_from / the private validator / Display / "
+                    "matches_topic on every string and pair and matches_filter on every pair of valid filters (a reported cover must "
+                    "be a cover of TLC's match sets); random longer unicode pairs and a sample of the table pairs are judged by TLC "
+                    "(TopicJudge) from the recorded real answers",
+               tlc=[dict(cfg=f"L{L}", generated=r["generated"], distinct=r["distinct"], wall=r["wall"], cached=r["cached"])])
+    vlib.write_evidence(prop, tier, seed, "model_checking", cov, time.time() - t0, len(new),
+                        ["universe bounded by L; longer strings only by random generation", "TLC's tables are compared in the harness (Rust) for the bulk, TLC itself judges the sampled and the random answers"])
+    if new:
+        seen = set()
+        for v in new[:10]:
+            if v["why"] in seen:
+                continue
+            seen.add(v["why"])
+            p = vlib.write_replay(prop, hashlib_sha(v["signature"]), dict(property=prop, group="topic", **v))
+            print(f"VIOLATION property={prop} replay={p}")
+            print(f"  reason={v['why']} filter={v['f']!r} topic={v['t']!r}")
+        return 1
+    print(f"OK property={prop} tier={tier} strings={res['strings']} pairs={res['pairs']} cover_pairs={res['cover_pairs']} judged={verdict['runs']} wall={time.time()-t0:.1f}s")
+    return 0
+
+
+def hashlib_sha(s):
+    import hashlib
+    return hashlib.sha256(s.encode()).hexdigest()[:10]
+
+
+def replay_topic(prop, r):
+    print("replay: filter", repr(r.get("f")), "topic", repr(r.get("t")), "reason", r.get("why"))
+    print("re-run: python3 bin/check.py C18 --tier quick")
+    return 0
+
+
+reg(dict(name="topic", kind="custom", run=run_topic, replay=replay_topic), ["C18"])
